@@ -326,11 +326,13 @@ def _check_for_resource_template_ref(
             inputs = celtypes.MapType()
 
         if function_under_test.local_values:
-            locals = function_under_test.local_values.evaluate(
-                {
-                    "inputs": inputs,
-                }
+            locals = evaluate(
+                expression=function_under_test.local_values,
+                inputs={"inputs": inputs},
+                location="locals",
             )
+            if not isinstance(locals, celtypes.MapType):
+                continue
         else:
             locals = celtypes.MapType()
 
